@@ -242,12 +242,18 @@ class Reader(BaseValidator):
 
         :raises cutplace.errors.DataError: on broken data
         """
+        # Start from scratch right now instead of when the first row is requested. Otherwise a caller that never
+        # requests a row, for example validate() with ``validate_until=0``, would have close() perform the checks
+        # at the end on whatever an earlier run using the same CID left behind.
         self.accepted_rows_count = 0
         self.rejected_rows_count = 0
         # Start counting rows from the beginning in case the data are read another time.
         self._location = errors.Location(self._source_path, has_cell=True)
         for check in self.cid.check_map.values():
             check.reset()
+        return self._validated_rows()
+
+    def _validated_rows(self):
         header_row_count = self._cid.data_format.header
         for row_count, row in enumerate(self._raw_rows(), 1):
             try:
